@@ -1,12 +1,12 @@
 #!/usr/bin/env python3
 """known_findings.json (the committed known-findings file the checks read) = union of the per-property source
-fragments known/Cnn.json + the 'fixed' list kept in known/fixed.json.  Run by hand after editing a fragment; never at check time."""
+fragments known/Cnn.json + the 'fixed' list kept in fixed/fixed.json.  Run by hand after editing a fragment; never at check time."""
 import json, glob, os
 here = os.path.dirname(os.path.dirname(os.path.abspath(__file__)))
 items = []
 for f in sorted(glob.glob(os.path.join(here, 'known', 'C*.json'))):
     items += json.load(open(f)).get('findings', [])
-fx = os.path.join(here, 'known', 'fixed.json')
+fx = os.path.join(here, 'fixed', 'fixed.json')
 fixed = json.load(open(fx)) if os.path.exists(fx) else []
 out = {"comment": "Genuine defects of the unchanged tree that are recorded rather than repaired, keyed by the stable root-cause key the check assigns (law x call site x outcome); a different violation of the same property has a different key and is still reported. 'fixed' entries (repaired by a fix: commit in /repo) suppress nothing. Never written at run time. Source fragments: known/Cnn.json, merged by tools/merge_known.py.",
        "findings": items, "fixed": fixed}
